@@ -150,6 +150,15 @@ def run(ctx):
             cases.append({"text": t, "ts": rnd.choice(tss), "latent": latent, "depth": depth, "rel": rel, "scorer": scorer,
                           "seed": i, "entries": ["single", "gen"] + (["debug"] if i % 5 == 0 else []), "label": "opts",
                           "form": "%s/d%d" % (scorer, depth)})
+    # weekday + day of month: the next such date can be more than a year away (every weekday x days 28-31 x all reference times)
+    for wd in ("monday", "tuesday", "wednesday", "thursday", "friday", "saturday", "sunday", "mittwoch"):
+        for d in (28, 29, 30, 31):
+            for ts in tss:
+                if ts is None:
+                    continue
+                for ts2 in (ts, (ts[0], 1, 1, 0, 0), (ts[0], 8, 10, 12, 0)):
+                    cases.append({"text": "%s %d%s" % (wd, d, G.ordinal_suffix(d)), "ts": ts2, "latent": 1, "depth": 10, "rel": 1.0,
+                                  "scorer": "shipped", "seed": 0, "entries": ["single", "gen"], "label": "dow-dom", "form": "dow-dom"})
     # smoke subset under a tiny REAL timeout (the expiry point is not controlled here; C13 enumerates them)
     for t in texts[::40]:
         cases.append({"text": t, "ts": (2018, 3, 7, 12, 43), "latent": 1, "depth": 10, "rel": 1.0, "scorer": "shipped", "timeout": 0.0001,
